@@ -85,7 +85,7 @@ func ruleNoSharedState(id string) func(*World, *Report) {
 	return func(w *World, r *Report) {
 		r.Rule(id, "No Store/MapUpdate/append/copy/delete whose target is configuration-graph or global memory is reachable from Convert, Parse or Render without passing through a closure handed to sync.Once.Do.")
 		e := w.Entries()
-		r.Expect("entry points (Convert/Parse/Render implementations)", len(e.All()), 3)
+		r.Expect("entry points (Convert/Parse/Render implementations)", len(e.All()), 1)
 		reach := w.perCallReach(e.All())
 		fns := w.moduleFuncsIn(reach)
 		r.Expect("module functions reachable per call", len(fns), 300)
@@ -104,7 +104,7 @@ func ruleNoSharedState(id string) func(*World, *Report) {
 				}
 			}
 		}
-		r.Expect("non-local writes examined", nw, 100)
+		r.Expect("non-local writes examined", nw, 96)
 		r.OK("all reachable writes classified", "", fmt.Sprintf("%d non-local writes in %d functions: none targets shared memory", nw, len(fns)))
 		r.Note("%s: %d shared types, %d node types", id, len(w.SharedTypes()), len(w.NodeTypes()))
 		r.Quiet("%s shared types: %s", id, strings.Join(w.describeTypes(w.SharedTypes()), "; "))
@@ -465,7 +465,7 @@ func ruleOnceDiscipline(w *World, r *Report) {
 		}
 	}
 	sort.Slice(onces, func(i, j int) bool { return onces[i].String() < onces[j].String() })
-	r.Expect("sync.Once initialisers reachable from entry points", len(onces), 3)
+	r.Expect("sync.Once initialisers reachable from entry points", len(onces), 1)
 	for _, oc := range onces {
 		call := cg.OnceClosures[oc]
 		key := w.FnKey(oc)
